@@ -206,8 +206,9 @@ class Ctx:
             "property_id": self.pid, "tier": self.tier, "seed": self.seed, "level": self.level,
             "coverage": cov, "assumptions": self.assumptions, "wall_s": round(wall, 2), "violations": int(nviol),
         }
-        os.makedirs(os.path.join(VERIF, "evidence"), exist_ok=True)
-        with open(os.path.join(VERIF, "evidence", "%s.json" % self.pid), "w", encoding="utf-8") as f:
+        evdir = os.environ.get("VERIF_EVIDENCE_DIR") or os.path.join(VERIF, "evidence")     # sweeps over seeds write elsewhere
+        os.makedirs(evdir, exist_ok=True)
+        with open(os.path.join(evdir, "%s.json" % self.pid), "w", encoding="utf-8") as f:
             f.write(jdump(ev) + "\n")
         print("%s %s tier=%s seed=%d evaluations=%d distinct=%d wall=%.1fs counters=%s" % (
             self.pid, verdict.upper(), self.tier, self.seed, evaluations, len(self._distinct), wall,
